@@ -274,6 +274,13 @@ class Interp:
                     return K(False)
                 left = right
             return K(bool(result))
+        if isinstance(e, ast.NamedExpr):
+            v = self.eval(e.value, st)
+            if st.pending is None:
+                self._assign(e.target, v, st)
+            return v
+        if isinstance(e, ast.Lambda):
+            return self._local_function(e, st)
         if isinstance(e, ast.IfExp):
             t = self._truth_of(e.test, st)
             if t is None:
@@ -339,6 +346,23 @@ class Interp:
                     kwargs["**"] = kv
             if st.pending is not None:
                 return U("an operand raised")  # the call itself never happens
+            if isinstance(e.func, ast.Name) and isinstance(st.env.get(e.func.id), R) and st.env[e.func.id].kind == "localfunc":
+                return self._call_local(st.env[e.func.id], args, kwargs, st)
+            if fname == "len" and len(args) == 1 and not kwargs:
+                a0 = args[0]
+                if isinstance(a0, K) and isinstance(a0.v, (tuple, str, bytes, frozenset)):
+                    return K(len(a0.v))
+                if isinstance(a0, R) and a0.kind in ("list", "dict") and "items" in a0.fields:
+                    return K(len(a0.fields["items"]))
+            if fname == "next" and 1 <= len(args) <= 2 and isinstance(e.args[0], ast.Call) and dotted(e.args[0].func) == "iter" and len(e.args[0].args) == 1:
+                seq = self.iterate(self.eval(e.args[0].args[0], st), st)
+                if seq is not None:
+                    if seq:
+                        return seq[0]
+                    if len(args) == 2:
+                        return args[1]
+                    st.pending = st.pending or "StopIteration"
+                    return U("StopIteration")
             # built-in record operation: x.replace(field=value)
             if isinstance(fval, R) and isinstance(e.func, ast.Attribute) and e.func.attr == "replace" and not args:
                 return fval.replace(**kwargs)
@@ -422,12 +446,24 @@ class Interp:
             st.effects.append(("yield-from", st.freeze(self.eval(e.value, st))))
             return U("yield from")
         if isinstance(e, ast.Dict):
-            if all(k is not None for k in e.keys):
-                pairs = [(self.eval(k, st), self.eval(v, st)) for k, v in zip(e.keys, e.values)]
-                if self.heap:
-                    return st.alloc("dict", dict(pairs))
-                return R("dict", items=tuple(pairs))
-            return U("dict unpack")
+            pairs: List[Tuple[V, V]] = []
+            for k, v in zip(e.keys, e.values):
+                if k is not None:
+                    kv, vv = self.eval(k, st), self.eval(v, st)
+                    pairs = [(a, b) for a, b in pairs if a != kv] + [(kv, vv)]
+                    continue
+                src = self.eval(v, st)  # {**mapping}
+                if isinstance(src, Ref) and src.kind in ("dict", "defaultdict"):
+                    more = list(st.dict_of(src).items())
+                elif isinstance(src, R) and src.kind == "dict" and "items" in src.fields:
+                    more = list(src.fields["items"])
+                else:
+                    return U("dict unpack")
+                for a, b in more:
+                    pairs = [(x, y) for x, y in pairs if x != a] + [(a, b)]
+            if self.heap:
+                return st.alloc("dict", dict(pairs))
+            return R("dict", items=tuple(pairs))
         if isinstance(e, ast.Slice):
             return R(
                 "slice",
@@ -438,15 +474,78 @@ class Interp:
         if isinstance(e, ast.BinOp):
             l, r = self.eval(e.left, st), self.eval(e.right, st)
             if isinstance(l, K) and isinstance(r, K):
+                num = lambda x: isinstance(x, (int, float)) and not isinstance(x, bool)  # noqa: E731
                 try:
                     if isinstance(e.op, ast.Add):
                         return K(l.v + r.v)
                     if isinstance(e.op, ast.Sub):
                         return K(l.v - r.v)
+                    if num(l.v) and num(r.v):
+                        if isinstance(e.op, ast.Mult):
+                            return K(l.v * r.v)
+                        if isinstance(e.op, ast.FloorDiv):
+                            return K(l.v // r.v)
+                        if isinstance(e.op, ast.Mod):
+                            return K(l.v % r.v)
+                        if isinstance(e.op, ast.BitOr) and isinstance(l.v, int) and isinstance(r.v, int):
+                            return K(l.v | r.v)
+                        if isinstance(e.op, ast.BitAnd) and isinstance(l.v, int) and isinstance(r.v, int):
+                            return K(l.v & r.v)
+                    if isinstance(e.op, ast.Mult) and isinstance(l.v, str) and isinstance(r.v, int) and not isinstance(r.v, bool):
+                        return K(l.v * r.v)
                 except Exception:
                     pass
+            if isinstance(e.op, ast.Add):
+                # list + list -> a new list
+                sl, sr = (self.iterate(x, st) if isinstance(x, (Ref,)) or (isinstance(x, R) and x.kind == "list") else None for x in (l, r))
+                if sl is not None and sr is not None and not (isinstance(l, Ref) and l.kind != "list") and not (isinstance(r, Ref) and r.kind != "list"):
+                    return st.alloc("list", list(sl) + list(sr)) if self.heap else R("list", items=tuple(sl) + tuple(sr))
             return U("binop")
         return U(type(e).__name__)
+
+    # ---- functions defined inside the interpreted function (def / lambda) ----------------------------
+    def _local_function(self, node: ast.AST, st: State) -> V:
+        if not hasattr(self, "_locals_by_id"):
+            self._locals_by_id = {}
+        self._locals_by_id[id(node)] = node
+        return R("localfunc", node=K(id(node)))
+
+    def _call_local(self, f: R, args: List[V], kwargs: Dict[str, V], st: State) -> V:
+        node = getattr(self, "_locals_by_id", {}).get(f.fields["node"].v)
+        if node is None:
+            return U("unknown local function")
+        a = node.args
+        params = [x.arg for x in a.posonlyargs + a.args]
+        sub = State()
+        sub.env = dict(st.env)  # the enclosing scope as it is at call time
+        sub.effects, sub.assume, sub.heap, sub._next = st.effects, st.assume, st.heap, st._next
+        for p_, v in zip(params, args):
+            sub.env[p_] = v
+        if a.vararg is not None:
+            sub.env[a.vararg.arg] = K(tuple(args[len(params):]))
+        for k, v in kwargs.items():
+            sub.env[k] = v
+        pos = a.posonlyargs + a.args
+        for p_, d in zip(pos[len(pos) - len(a.defaults):], a.defaults):
+            if p_.arg not in kwargs and params.index(p_.arg) >= len(args):
+                sub.env[p_.arg] = self.eval(d, sub)
+        for p_, d in zip(a.kwonlyargs, a.kw_defaults):
+            if d is not None and p_.arg not in kwargs:
+                sub.env[p_.arg] = self.eval(d, sub)
+        if isinstance(node, ast.Lambda):
+            v = self.eval(node.body, sub)
+            if sub.pending is not None:
+                st.pending = st.pending or sub.pending
+            return v
+        outs = self.run(node.body, sub)
+        if len(outs) != 1:
+            vals = [o.term[1] if o.term and o.term[0] == "return" else K(None) for o in outs]
+            return vals[0] if vals and all(v == vals[0] for v in vals) else U("local function forked")
+        o = outs[0]
+        if o.term is not None and o.term[0] == "raise":
+            st.pending = st.pending or str(o.term[1])
+            return U("raises")
+        return o.term[1] if o.term is not None and o.term[0] == "return" else K(None)
 
     def iterate(self, it: V, st: State) -> Optional[List[V]]:
         """The concrete element sequence of an iterable, if it is known."""
@@ -980,6 +1079,17 @@ class Interp:
                     new = K(cur.v + rhs.v)
                 except Exception:
                     new = U("augassign")
+            if isinstance(cur, Ref) and isinstance(s.op, ast.Add) and isinstance(st.deref(cur), list) and cur.kind == "list":
+                seq = self.iterate(rhs, st)
+                if seq is not None:
+                    st.deref(cur).extend(seq)  # list += iterable mutates in place
+                    st.effects.append(("augassign", norm(s.target), "Add", rhs))
+                    return [st]
+            if isinstance(cur, K) and isinstance(rhs, K) and not isinstance(s.op, ast.Add):
+                fake = ast.BinOp(left=ast.Constant(cur.v), op=s.op, right=ast.Constant(rhs.v))
+                new = self.eval(fake, st)
+                if isinstance(new, U):
+                    new = U("augassign")
             st.effects.append(("augassign", norm(s.target), type(s.op).__name__, rhs))
             if isinstance(s.target, ast.Name):
                 self._assign(s.target, new, st)
@@ -1014,10 +1124,29 @@ class Interp:
         if isinstance(s, ast.Continue):
             st.term = ("continue",)
             return [st]
+        if isinstance(s, (ast.FunctionDef,)) and not s.decorator_list:
+            st.env[s.name] = self._local_function(s, st)
+            return [st]
+        if isinstance(s, ast.Import):
+            for al in s.names:
+                st.env[al.asname or al.name.split(".")[0]] = S("mod:" + (al.name if al.asname else al.name.split(".")[0]))
+            return [st]
+        if isinstance(s, ast.ImportFrom) and s.module and not s.level:
+            for al in s.names:
+                st.env[al.asname or al.name] = S(f"mod:{s.module}.{al.name}")
+            return [st]
         if isinstance(s, ast.Delete):
             for t in s.targets:
                 if isinstance(t, ast.Subscript):
-                    st.effects.append(("delitem", norm(t.value), self.eval(t.slice, st)))
+                    obj = self.eval(t.value, st)
+                    key = self.eval(t.slice, st)
+                    if isinstance(obj, Ref) and not isinstance(st.deref(obj), list):
+                        d = st.dict_of(obj)
+                        if key in d:
+                            del d[key]
+                        else:
+                            st.pending = st.pending or "KeyError"
+                    st.effects.append(("delitem", norm(t.value), key))
                 else:
                     st.effects.append(("del", norm(t)))
             return [st]
